@@ -390,6 +390,30 @@ func ruleNodeLayer(c *Ctx) {
 												}
 											}
 										}
+										// new.setChild(pos, b, old.children[i]): a method of the new node that
+										// stores into the field of its receiver, fed from the old node
+										if sel, ok := y.Fun.(*ast.SelectorExpr); ok && identVar(info, sel.X) == nv {
+											if mu := m.calleeUnit(y); mu != nil && mu.Body != nil && mu.Decl != nil && mu.Decl.Recv != nil && len(mu.Decl.Recv.List) == 1 && len(mu.Decl.Recv.List[0].Names) == 1 {
+												rv, _ := info.Defs[mu.Decl.Recv.List[0].Names[0]].(*types.Var)
+												stores := false
+												ast.Inspect(mu.Body, func(w ast.Node) bool {
+													if as2, ok := w.(*ast.AssignStmt); ok {
+														for _, l := range as2.Lhs {
+															ast.Inspect(l, func(q ast.Node) bool {
+																if se, ok := q.(*ast.SelectorExpr); ok && se.Sel.Name == fname && rv != nil && identVar(info, se.X) == rv {
+																	stores = true
+																}
+																return !stores
+															})
+														}
+													}
+													return !stores
+												})
+												if stores && (reads(earlier, xo, "children") || reads(earlier, xo, "keys")) {
+													written = true
+												}
+											}
+										}
 									}
 									return true
 								})
